@@ -1539,6 +1539,9 @@ class StorageBackendBase(StorageBackend, ABC):
                     "not retrieve Memento: {}".format(fn_with_arg_hash)
                 )
             try:
+                if memento.content_key is None:
+                    # (a null result has no stored object that metadata could be with)
+                    raise FileNotFoundError(key)
                 result = self._data_source.input_metadata(memento.content_key, key)
             except FileNotFoundError:
                 # The metadata was stored with an earlier result of this call; the result
